@@ -102,6 +102,38 @@ Fixpoint zip_csteps (f c : list step) : list cstep :=
   | _, _ => []
   end.
 
+(* ---- the coupled loop as the code runs it: ONE call a(t, zi) on the stacked state zi = [zf; zc] (shape (2, m, 1)).
+   The result is either a single matrix that matmul broadcasts over both components (Constant: constant_matrix)
+   or a stack of two matrices (DiagX: zi * np.eye(m)); the drift is stacked explicitly:
+   np.stack((sde_drift(t, zi[0]), sde_drift(t, zi[1]))); mc_drift = np.stack((mc_drift_h, mc_drift_2h)). *)
+Inductive smat := Shared (A : list (list Q)) | Stacked (Af Ac : list (list Q)).
+Definition smat_f (s : smat) : list (list Q) := match s with Shared A => A | Stacked Af _ => Af end.
+Definition smat_c (s : smat) : list (list Q) := match s with Shared A => A | Stacked _ Ac => Ac end.
+
+(* the three terms of one component, given its slice of a_zi and of the stacked drift *)
+Definition terms_of (A : list (list Q)) (bv mu : list Q) (s : step) : list Q * list Q * list Q :=
+  (vscale (s_dt s) (vadd bv (matvec A mu)), matvec A (s_dW s), matvec A (s_dL s)).
+Definition next_of (tm : list Q * list Q * list Q) (z : list Q) : list Q := vadd z (vadd (vadd (fst3 tm) (thd3 tm)) (snd3 tm)).
+
+Section Stacked.
+  Variable a_st : Q -> list Q -> list Q -> smat.     (* a(t, zi), zi given by its two components *)
+  Variable b : Q -> list Q -> list Q.
+  Fixpoint ceuler_st (mu_h mu_2h : list Q) (csteps : list cstep) (zf zc : list Q)
+    : list ((list Q * list Q * list Q) * (list Q * list Q * list Q)) :=
+    match csteps with
+    | [] => []
+    | c :: r =>
+        let S := a_st (c_t c) zf zc in
+        let tf := terms_of (smat_f S) (b (c_t c) zf) mu_h (fine_step c) in
+        let tc := terms_of (smat_c S) (b (c_t c) zc) mu_2h (coarse_step c) in
+        (tf, tc) :: ceuler_st mu_h mu_2h r (next_of tf zf) (next_of tc zc)
+    end.
+End Stacked.
+
+(* stacked versions of the offered coefficient functions *)
+Definition a_st_constant (A : list (list Q)) : Q -> list Q -> list Q -> smat := fun _ _ _ => Shared A.
+Definition a_st_diag : Q -> list Q -> list Q -> smat := fun _ zf zc => Stacked (diag zf) (diag zc).
+
 (* the coefficient functions offered by levydrivensde.py *)
 Definition a_constant (A : list (list Q)) : Q -> list Q -> list (list Q) := fun _ _ => A.   (* Constant *)
 Definition a_diag : Q -> list Q -> list (list Q) := fun _ x => diag x.                       (* DiagX (repaired) *)
